@@ -19,6 +19,7 @@ from sim.node import SimNet
 
 PATCHED_MODULES = ('cassandra.cluster', 'cassandra.pool', 'cassandra.connection')
 _CURRENT = [None]
+_FROZEN = [False]
 
 
 def current_world():
@@ -57,6 +58,11 @@ class SimEnv(object):
         # garbage of earlier worlds (Session.__del__ -> shutdown ...) must not be finalised at an arbitrary point inside
         # this world: collect it now and keep the collector off for the (short) life of the world
         gc.collect()
+        if not _FROZEN[0]:
+            # once per process: what is alive after the imports goes to the permanent generation, so that the two full
+            # collections per world only scan what worlds create (they cost ~30 ms each otherwise)
+            gc.freeze()
+            _FROZEN[0] = True
         gc.disable()
         w, p = self.world, self.prims
         w.attach_main()
